@@ -8,6 +8,7 @@ pub mod c03;
 pub mod c04;
 pub mod c05;
 pub mod c10;
+pub mod c12;
 pub mod c14;
 pub mod c15;
 
@@ -19,6 +20,7 @@ pub fn run(id: &str, tier: Tier) -> i32 {
         "C04" => { let r = Run::new("C04", tier); start_watchdog("C04"); c04::run(&r); r }
         "C05" => { let r = Run::new("C05", tier); start_watchdog("C05"); c05::run(&r); r }
         "C10" => { let r = Run::new("C10", tier); c10::run(&r); r }
+        "C12" => { let r = Run::new("C12", tier); start_watchdog("C12"); c12::run(&r); r }
         "C14" => { let r = Run::new("C14", tier); c14::run(&r); r }
         "C15" => { let r = Run::new("C15", tier); c15::run(&r); r }
         _ => {
@@ -49,6 +51,7 @@ pub fn replay_case(id: &str, op: &str, case: &serde_json::Value) -> Result<(), S
         (_, "conversions_enum") | (_, "conversions_lexical") => c15::replay_case(case),
         (_, "enum_parse_total") | (_, "parse_error_grid") => c04::replay_case(case),
         (_, "lexical_parse_total") | (_, "fold_total") => c05::replay_case(case),
+        (_, "parse_wf") | (_, "fold_wf") | (_, "text_fold_wf") => c12::replay_case(case),
         (_, "meaning") => c10::replay_case(case),
         (_, "pipelines_agree") | (_, "vocab_table") => c03::replay_case(case),
         _ => Err(format!("no replayer for property {id} op {op:?}")),
